@@ -14,6 +14,7 @@ Part D (geometry): the corner Jacobians used by the handedness validator are inv
 import CBV.Lemmas.C11Chain
 import CBV.Lemmas.C11Geom
 import CBV.Lemmas.C11Loft
+import CBV.Lemmas.C11Distinct
 import Mathlib.Analysis.Real.Sqrt
 import Mathlib.Tactic.NormNum
 import Mathlib.Tactic.Ring
@@ -650,6 +651,16 @@ theorem T_C11_disk_rim_on_circle (cl : DiskCls) (c rp u : P3 K) (h : K) (hu : ns
   intro p hp'
   obtain ⟨i, _, rfl⟩ := List.mem_map.mp hp'
   exact (T_C11_fan_on_circle c rp u h hu hp hh i 1).1
+
+/-- **no two generated points coincide**: the positions handed to `MappedSketch` are pairwise different, so two
+    faces share exactly the points their quads share by index — the index-level conformity of the quad maps
+    (`T_C11_conformal_sketches`) is conformity in space -/
+theorem T_C11_disk_points_distinct (cl : DiskCls) (c rp u : P3 K) (h k dg : K)
+    (hu : nsq u = 1) (hp : dot u (sub rp c) = 0) (hr : 0 < nsq (sub rp c)) (hok : DiskOK cl h k dg) :
+    (diskPts cl c rp u h k dg).Nodup := by
+  rw [diskPts_frame cl c rp u h k dg hp]
+  exact List.Nodup.map
+    (fun p q hpq => frame_inj c _ u p q (ne_of_gt (frameDet_pos _ u hu hp hr)) hpq) (diskL_nodup cl h k dg hok)
 
 end PartF
 
